@@ -256,9 +256,39 @@ def enum_real_repositories(seed):
                     got = f"{type(e).__name__}: {e}"
                 if got != want and len(fails) < 5:
                     fails.append({"model": dict(model, request=[[str(a), k] for a, k in req]), "detail": f"overlay (arch list {own}) on master (amd64 x86), stabilisation request {[(str(a), k) for a, k in req]}: {got}, expected {want}"})
+        # the arch list replaced by another one of the same size and the same modification time (an mtime-preserving delivery, two updates within a
+        # second): a repository opened afterwards in the same process knows what the file says now
+        cases += 1
+        swap = EbuildRepo(f"{scratch}/swap", repo_id="swap", arches=("amd64", "hppa"))
+        swap.create_ebuild("cat/pkg-1", keywords=["amd64", "hppa", "mips"])
+        swap.create_ebuild("cat/pkg-2", keywords=["~amd64", "~hppa", "~mips"])
+        model = {"arch_list_before": ["amd64", "hppa"], "arch_list_after": ["amd64", "mips"], "same_size_and_mtime": True}
+        try:
+            first = sorted(repository.UnconfiguredTree(swap.path, repo_config=repo_objs.RepoConfig(location=swap.path)).known_arches)
+            ap = os.path.join(swap.path, "profiles", "arch.list")
+            st = os.stat(ap)
+            text = open(ap).read()
+            open(ap, "w").write(text.replace("hppa", "mips"))
+            os.utime(ap, ns=(st.st_atime_ns, st.st_mtime_ns))
+            tree2 = repository.UnconfiguredTree(swap.path, repo_config=repo_objs.RepoConfig(location=swap.path))
+            second = sorted(tree2.known_arches)
+            # an explicit request for the arch that is valid now must be accepted, one for the arch that is gone refused
+            try:
+                ok_now = [(r.pkg.cpvstr, sorted(r.keywords)) for r in match_packages(tree2, [(atom("=cat/pkg-2"), ["mips"])], stable=True)]
+            except Exception as e:
+                ok_now = f"{type(e).__name__}: {e}"
+            try:
+                gone = [(r.pkg.cpvstr, sorted(r.keywords)) for r in match_packages(tree2, [(atom("=cat/pkg-2"), ["hppa"])], stable=True)]
+            except Exception as e:
+                gone = "refused"
+            if first != ["amd64", "hppa"] or second != ["amd64", "mips"] or ok_now != [("cat/pkg-2", ["mips"])] or gone != "refused":
+                fails.append({"model": model, "detail": f"arch list amd64 hppa read ({first}), then replaced by amd64 mips with the same size and modification time: a repository opened afterwards knows {second}; "
+                                                        f"a request for mips on =cat/pkg-2 gives {ok_now}, one for hppa gives {gone}; the file says amd64 mips"})
+        except Exception as e:
+            fails.append({"model": model, "detail": f"re-opening a repository after its arch list was replaced raised {type(e).__name__}: {e}"})
     finally:
         shutil.rmtree(scratch, ignore_errors=True)
-    return {"name": "C40.real_repositories.bounded_enumeration", "bound": "4 on-disk overlays (own arch list: one new arch, a new and a shared one, empty, absent) on a master with two arches: known_arches and 3 stabilisation requests each through the real match_packages",
+    return {"name": "C40.real_repositories.bounded_enumeration", "bound": "an arch list replaced in place (same size, same mtime) between two openings of one repository; 4 on-disk overlays (own arch list: one new arch, a new and a shared one, empty, absent) on a master with two arches: known_arches and 3 stabilisation requests each through the real match_packages",
             "cases": cases, "failures": fails}
 
 
